@@ -92,6 +92,9 @@ partial def showStmt (n : Nat) (s : Stmt) : String :=
        | some es => " = [" ++ String.intercalate ", " (es.map showExpr) ++ "]"
        | none => "") ++ ";\n"
   | .declStruct sn x => ind n ++ sn ++ " " ++ x ++ ";\n"
+  | .declStructInit c sn x es =>
+      ind n ++ (if c then "const " else "") ++ sn ++ " " ++ x ++ " = {" ++
+        String.intercalate ", " (es.map showExpr) ++ "};\n"
   | .assign lv e => ind n ++ showExpr lv ++ " = " ++ showExpr e ++ ";\n"
   | .compound op lv e => ind n ++ showExpr lv ++ " " ++ op.sym ++ "= " ++ showExpr e ++ ";\n"
   | .expr e => ind n ++ showExpr e ++ ";\n"
@@ -121,7 +124,7 @@ partial def showStmts (n : Nat) (ss : List Stmt) : String := String.join (ss.map
 end
 
 def showParam (p : Param) : String :=
-  p.ty.show ++ " " ++ p.name ++ (match p.dflt with | some d => " = " ++ showLit d | none => "")
+  (if p.const then "const " else "") ++ p.ty.show ++ " " ++ p.name ++ (match p.dflt with | some d => " = " ++ showLit d | none => "")
 
 def showFunc (f : Func) : String :=
   (match f.ret with | some t => t.show | none => "void") ++ " " ++ f.name ++ "(" ++
